@@ -92,7 +92,6 @@ def discharge : List Discharge := [
 /-- Examined and NOT harmless (recorded in known-findings.txt). -/
 def knownBlocking : List SiteKey := [
   -- F8: bare send; once broadcastHandler has returned nobody receives
-  ⟨N.«pushtx.Broadcaster.MarkAsConfirmed», N.«pushtx.Broadcaster.confChan»⟩,
   -- the UTXO scanner's goroutine calls GetBlock/GetCFilter synchronously; their only quit alternative is
   -- ChainService.quit, closed AFTER utxoScanner.Stop has to return; with no connected peer the work manager
   -- never produces a verdict (the batch timeout is only examined when a job result arrives)
